@@ -292,7 +292,8 @@ Record fstate := mkFS { frecs : list (Z * frec);          (* file records by rec
 Definition f_init : fstate := mkFS [] [] 0.
 
 Inductive fop := FOpen (path acc : Z) | FClose (fid : Z) | FStart (fid : Z) (write : bool) | FEnd (aid : Z)
-               | FInq (fid : Z).
+               | FInq (fid : Z)
+               | FOpenDenied (path acc : Z).   (* Hopen whose HI_OPEN / HI_CREATE is refused by the system *)
 Inductive fres := RFail | ROk (v : Z).
 
 Definition rec_of_path (p : Z) (st : fstate) : option (Z * frec) :=
@@ -311,6 +312,12 @@ Definition file_of (fid : Z) (st : fstate) : option (Z * frec) :=
 Definition aid_through (fid : Z) (st : fstate) : bool :=
   existsb (fun e => match snd e with OAid f => f =? fid | _ => false end) (fids st).
 
+Definition f_step_open_shared (p acc r : Z) (fr : frec) (st : fstate) : fres * fstate :=
+  let id := fnext st in
+  let fr' := mkF p (frefcount fr + 1) (fattach fr)
+                 (if (0 <? Z.land acc DFACC_WRITE) then Z.lor (faccess fr) DFACC_WRITE else faccess fr) in
+  (ROk id, mkFS (aset r fr' (frecs st)) ((id, OFile r) :: fids st) (id + 1)).
+
 Definition f_step (o : fop) (st : fstate) : fres * fstate :=
   match o with
   | FOpen p acc =>
@@ -319,10 +326,7 @@ Definition f_step (o : fop) (st : fstate) : fres * fstate :=
       match rec_of_path p st with
       | Some (r, fr) =>                                         (* already open: share the record *)
           if acc =? DFACC_CREATE then (RFail, st)
-          else
-            let fr' := mkF p (frefcount fr + 1) (fattach fr)
-                           (if (0 <? Z.land acc DFACC_WRITE) then Z.lor (faccess fr) DFACC_WRITE else faccess fr) in
-            (ROk id, mkFS (aset r fr' (frecs st)) ((id, OFile r) :: fids st) (id + 1))
+          else f_step_open_shared p acc r fr st
       | None =>
           let r := Z.of_nat (length (frecs st)) in
           let fr := mkF p 1 0 (if acc =? DFACC_CREATE then DFACC_ALL else Z.lor acc DFACC_READ) in
@@ -360,6 +364,21 @@ Definition f_step (o : fop) (st : fstate) : fres * fstate :=
       match file_of fid st with
       | Some (r, fr) => (ROk (fpath fr), st)
       | None => (RFail, st)
+      end
+  | FOpenDenied p acc =>
+      if negb (Z.land acc DFACC_ALL =? acc) then (RFail, st) else
+      match rec_of_path p st with
+      | Some (r, fr) =>
+          if acc =? DFACC_CREATE then (RFail, st)
+          else if (0 <? Z.land acc DFACC_WRITE) && (Z.land (faccess fr) DFACC_WRITE =? 0) then
+            (* the shared record is read-only and must be reopened: that is the stream the system refuses.
+               Opened-before-closed: nothing has happened yet.  Closed-before-opened: the record is left without a
+               stream -- every id of this file is dead (modelled as the record being gone) *)
+            if Hopen_reopen_opens_before_closing =? 1 then (RFail, st)
+            else (RFail, mkFS (adel r (frecs st)) (fids st) (fnext st))
+          else                                                  (* no stream is opened: the denial is not even noticed *)
+            f_step_open_shared p acc r fr st
+      | None => (RFail, st)                                     (* first open of the path refused: no record is kept *)
       end
   end.
 
